@@ -347,6 +347,8 @@ class Element:
         for chan in channels_list:
             bp_sum = BluePrint.blueprint_from_description(element_dict[chan])
             elem.addBluePrint(int(chan), bp_sum)
+            if "flags" in element_dict[chan]:
+                elem.addFlags(int(chan), element_dict[chan]["flags"])
         return elem
 
     @classmethod
